@@ -342,10 +342,17 @@ ComparePhys(A, B) ==
       tolC2 == IF kind \in {"relabel", "units"} THEN 1500 ELSE 2 * TolTangent
       tensBad == {j \in DOMAIN A.e.tens : LET q == A.e.tens[j][1] IN q = 0 \/ ~Close(A.e.tens[j][2], Lookup2(B.e.tens, q), tolX)}
       presBad == {j \in DOMAIN A.e.pres : ~Close(A.e.pres[j][2], Lookup2(B.e.pres, A.e.pres[j][1]), tolP)}
-      coefBad == {j \in DOMAIN A.e.coefs : LET q == A.e.coefs[j][1] v == A.e.coefs[j][2]
-                                               ca == RotT(A.e.g.rot, <<A.e.coefs[j][3], A.e.coefs[j][4]>>)
-                                               cb == RotT(B.e.g.rot, CoefOf(B.e.coefs, q, v))
-                                           IN ~(Close(ca[1], cb[1], tolC2) /\ Close(ca[2], cb[2], tolC2))}
+      \* exactly straight interfaces: the ill-posed fit depends on the order of the points (usually 1e-4, occasionally up
+      \* to the accuracy band of the fit); within twice that band nothing is demanded, beyond it the difference is the
+      \* known line-fit defect (KF_LineFitPerp), for relabelled pairs as well
+      coefDiff(j) == LET q == A.e.coefs[j][1] v == A.e.coefs[j][2]
+                         ca == RotT(A.e.g.rot, <<A.e.coefs[j][3], A.e.coefs[j][4]>>)
+                         cb == RotT(B.e.g.rot, CoefOf(B.e.coefs, q, v))
+                     IN Max(Abs(ca[1] - cb[1]), Abs(ca[2] - cb[2]))
+      isStraight(j) == A.e.coefs[j][1] \in B.straight
+      coefBad == {j \in DOMAIN A.e.coefs : ~isStraight(j) /\ coefDiff(j) > tolC2}
+                 \cup {j \in DOMAIN A.e.coefs : isStraight(j) /\ kind # "relabel" /\ coefDiff(j) > tolC2}
+      coefLine == {j \in DOMAIN A.e.coefs : isStraight(j) /\ kind = "relabel" /\ coefDiff(j) > 2 * TolTangent}
       contaminated == A.contaminated \/ B.contaminated
       lamPos == both /\ (A.sol.lam > 100 \/ B.sol.lam > 100)
       \* relabelling leaves the geometry alone: defects hit both runs alike, so nothing is excused there
@@ -355,7 +362,7 @@ ComparePhys(A, B) ==
       \* (relabelling: sign forcing, two-point interfaces and the far-from-origin loss hit both runs alike; only the
       \* ill-posed fit of straight interfaces depends on the order in which the points are stored, so a defect present in
       \* exactly one of the two runs is that one)
-      kfName == IF kind = "relabel" THEN (IF A.contaminated # B.contaminated THEN "KF_LineFitPerp" ELSE "")
+      kfName == IF kind = "relabel" THEN (IF A.contaminated # B.contaminated \/ coefLine # {} THEN "KF_LineFitPerp" ELSE "")
                 ELSE IF contaminated THEN "KF_TangentDefects"
                 ELSE IF kind # "units" /\ lamPos THEN "KF_MultiplierNotRotationInvariant" ELSE ""
       \* under relabelling a case hit by a tangent defect is hit alike in both runs, but its assembled system is then not
@@ -367,14 +374,21 @@ ComparePhys(A, B) ==
       structural == SetIf(A.e.internal # B.e.internal, P \o ".internal_set")
                     \cup SetIf(A.e.junctions # B.e.junctions /\ (kind = "relabel" \/ ~contaminated), P \o ".equation_set")
                     \cup SetIf(Len(A.e.pres) # Len(B.e.pres), P \o ".pressure_missing")
-      coefF == SetIf(A.e.junctions = B.e.junctions /\ coefBad # {}, P \o ".coefficients")
-  IN [fails |-> structural \cup (IF kfName = "" THEN numeric \cup coefF ELSE {}),
-      kf |-> IF kfName = "" THEN {} ELSE {kfName \o ":" \o c : c \in numeric \cup (IF kfName \in {"KF_TangentDefects", "KF_LineFitPerp"} THEN coefF ELSE {})}
-             ,
-      hits |-> {P \o ".compared"} \cup SetIf(numOK, P \o ".tension") \cup SetIf(Len(A.e.pres) > 0, P \o ".pressure")
-               \cup SetIf(Len(A.e.coefs) > 0, P \o ".coefficients") \cup SetIf(kfName = "" /\ both /\ cond, P \o ".clean_case"),
-      rejected |-> ~both \/ ~cond,
-      extraFails |-> IF kfName \notin {"KF_TangentDefects", "KF_LineFitPerp", ""} THEN coefF ELSE {}]
+      juncEq == A.e.junctions = B.e.junctions
+      hard == SetIf(juncEq /\ coefBad # {}, P \o ".coefficients")
+      line == SetIf(juncEq /\ coefLine # {}, P \o ".coefficients")
+  IN IF kind = "relabel"
+     THEN [fails |-> structural \cup hard \cup (IF kfName = "" THEN numeric ELSE {}),
+           kf |-> IF kfName = "" THEN {} ELSE {kfName \o ":" \o c : c \in numeric \cup line},
+           hits |-> {P \o ".compared"} \cup SetIf(numOK, P \o ".tension") \cup SetIf(Len(A.e.pres) > 0, P \o ".pressure")
+                    \cup SetIf(Len(A.e.coefs) > 0, P \o ".coefficients") \cup SetIf(kfName = "" /\ both /\ cond, P \o ".clean_case"),
+           rejected |-> ~both \/ ~cond, extraFails |-> {}]
+     ELSE [fails |-> structural \cup (IF kfName = "" THEN numeric \cup hard ELSE {}),
+           kf |-> IF kfName = "" THEN {} ELSE {kfName \o ":" \o c : c \in numeric \cup (IF kfName = "KF_TangentDefects" THEN hard ELSE {})},
+           hits |-> {P \o ".compared"} \cup SetIf(numOK, P \o ".tension") \cup SetIf(Len(A.e.pres) > 0, P \o ".pressure")
+                    \cup SetIf(Len(A.e.coefs) > 0, P \o ".coefficients") \cup SetIf(kfName = "" /\ both /\ cond, P \o ".clean_case"),
+           rejected |-> ~both \/ ~cond,
+           extraFails |-> IF kfName \notin {"KF_TangentDefects", ""} THEN hard ELSE {}]
 
 DoPhys(e) ==
   /\ e.ev = "Phys"
@@ -383,7 +397,8 @@ DoPhys(e) ==
                          LET q == PhysOf(env, fr.ifaces[i]) IN q # 0 /\
                             (\/ KF_TwoPointIfc(env, q) \/ KF_SignForcedEnd(env, q, fm.rows[k].v)
                              \/ KF_LineFitPerpEnd(env, q, fm.rows[k].v, Entry(fm.rows[k], ColOf(fm, i)))))
-         cur == [case |-> e.case, e |-> e, sol |-> sol, tolC |-> env.tolC, conditioned |-> env.conditioned, contaminated |-> contam]
+         cur == [case |-> e.case, e |-> e, sol |-> sol, tolC |-> env.tolC, conditioned |-> env.conditioned, contaminated |-> contam,
+                 straight |-> {q \in DOMAIN env.E : env.E[q].straight}]
      IN IF e.run = 1
         THEN EmitV(e, {}, {}, {}, {}, FALSE) /\ prev' = cur
         ELSE /\ (IF prev # None /\ prev.case = e.case
